@@ -105,6 +105,17 @@ Proof.
 Qed.
 End CgrEquivariance.
 
+(* DynamicBond.__int__ is the hash of BOTH orders: two dynamic bonds get the same tie-break value only if they are the same
+   bond or the tuple hash collides on their (order or 0, p_order or 0) pairs *)
+Theorem dbond_int_separates h a b : dbond_int h a = dbond_int h b ->
+  (oz (db_ord a) = oz (db_ord b) /\ oz (db_pord a) = oz (db_pord b)) \/
+  (h [oz (db_ord a); oz (db_pord a)] = h [oz (db_ord b); oz (db_pord b)] /\ [oz (db_ord a); oz (db_pord a)] <> [oz (db_ord b); oz (db_pord b)]).
+Proof.
+  unfold dbond_int, dbond_invariant. intros H.
+  destruct (Z.eq_dec (oz (db_ord a)) (oz (db_ord b))) as [E1|N1]; destruct (Z.eq_dec (oz (db_pord a)) (oz (db_pord b))) as [E2|N2];
+    [left; split; assumption|right|right|right]; (split; [exact H|intros E; inversion E; congruence]).
+Qed.
+
 (* non-vacuity: the example reaction of ComposeProofs renumbered by n -> 10 - n, with the CPython tuple hash (reference definition over Z) *)
 Example cgr_atoms_order_example :
   exists c, compose example_r example_p = Ok c /\
